@@ -128,6 +128,14 @@ def correspondence(ctx):
                 ctx.count(("repeated", name, D))
                 ctx.compare(f"RepeatedStepper({name}).__call__ accept/reject", [1 if impl == "accept" else 0], [model],
                             exact=True, detail={"shape": shape, "outcome": impl})
+            # ... and so does the forced stepper (state and forcing live on the same grid)
+            fs = ex.ForcedStepper(st)
+            for shape in malformed_shapes(C, D, N):
+                impl, oshape = call_outcome(lambda u: fs(u, 0 * u), shape)
+                model = d.ask(f"accepts {C} {D} {N} {len(shape)} " + " ".join(map(str, shape)))[0]
+                ctx.count(("forced", name, D))
+                ctx.compare(f"ForcedStepper({name}).__call__ accept/reject", [1 if impl == "accept" else 0], [model],
+                            exact=True, cell=("forced", name, D), detail={"shape": shape, "outcome": impl})
     # Poisson
     for D in Ds:
         N = 6
@@ -189,6 +197,28 @@ def correspondence(ctx):
                         continue  # generator does not take these options
                     ctx.count(("ic", gname, z, sd, m))
                     ctx.compare(f"ic.{gname} option validation", [ok], d.ask(f"guard ic {z} {sd} {m}"), exact=True, detail=kw)
+    # generators that express "zero mean" through their offset range: documented as zero-mean iff the range is (0, 0);
+    # any other range (symmetric about zero, degenerate at a non-zero value, one-sided) is an offset and is refused with
+    # std_one exactly like zero_mean=False
+    off_gens = {
+        "RandomTruncatedFourierSeries": lambda **kw: ic.RandomTruncatedFourierSeries(1, **kw),
+        "RandomSineWaves1d": lambda **kw: ic.RandomSineWaves1d(1, **kw),
+    }
+    for gname, mk in off_gens.items():
+        for rng_ in ((0.0, 0.0), (-1.0, 1.0), (-0.5, 0.5), (0.0, 1.0), (0.5, 0.5), (-2.0, -1.0)):
+            for sd in (0, 1):
+                for m in (0, 1):
+                    kw = {"offset_range": rng_, "std_one": bool(sd), "max_one": bool(m)}
+                    try:
+                        g = mk(**kw)
+                        g(16, key=jax.random.PRNGKey(0))
+                        ok = 1
+                    except ValueError:
+                        ok = 0
+                    z = 1 if rng_ == (0.0, 0.0) else 0
+                    ctx.count(("ic-offset", gname, rng_, sd, m))
+                    ctx.compare(f"ic.{gname} option validation (offset range)", [ok], d.ask(f"guard ic {z} {sd} {m}"), exact=True,
+                                cell=("ic-offset", gname), detail=kw)
     # metrics: mode needs a reference
     from exponax import metrics
     u = jnp.ones((1, 8))
@@ -240,8 +270,12 @@ def probe_shape(name, D, shape):
     rng = np.random.default_rng(0)
     N = 6
     rep = None
+    forced = False
     if name.startswith("RepeatedStepper:"):
         _, name, rep = name.split(":")
+    if name.startswith("ForcedStepper:"):
+        _, name = name.split(":")
+        forced = True
     if name == "Wave":
         st = ex.stepper.Wave(D, 2.0, N, 0.1)
     elif name == "Poisson":
@@ -252,6 +286,16 @@ def probe_shape(name, D, shape):
     if rep is not None:
         st = ex.RepeatedStepper(st, int(rep))
     good = (C,) + (N,) * D
+    if forced:
+        import jax.numpy as jnp
+        fs = ex.ForcedStepper(st)
+        st = lambda u: fs(u, 0 * u)   # noqa: E731
+        if tuple(shape) != good:
+            # a correctly shaped state with a forcing of this (wrong) shape is refused as well
+            fimpl, _ = call_outcome(lambda f: fs(jnp.ones(good), f), tuple(shape))
+            if fimpl != "ValueError":
+                return {"ok": False, "outcome": f"forcing of shape {tuple(shape)} with a correct state: {fimpl}", "expected": "ValueError",
+                        "configured": list(good)}
     impl, oshape = call_outcome(st, tuple(shape))
     expected = "accept" if tuple(shape) == good else "ValueError"
     if name == "Poisson" and rep is None:
@@ -262,20 +306,51 @@ def probe_shape(name, D, shape):
             "configured": list(good)}
 
 
+def probe_ic_options(gname, offset_range, std_one, max_one):
+    """documented rule of `validate_normalization_options`: a non-zero mean cannot be combined with std_one, and std_one
+    not with max_one; the offset-range generators are zero-mean exactly for the range (0, 0)"""
+    import jax
+    from exponax import ic
+    mk = {"RandomTruncatedFourierSeries": ic.RandomTruncatedFourierSeries, "RandomSineWaves1d": ic.RandomSineWaves1d}[gname]
+    zero_mean = tuple(offset_range) == (0.0, 0.0)
+    invalid = ((not zero_mean) and std_one) or (std_one and max_one)
+    try:
+        g = mk(1, offset_range=tuple(offset_range), std_one=std_one, max_one=max_one)
+        u = np.asarray(g(16, key=jax.random.PRNGKey(0)))
+        outcome = "accept"
+        extra = {"mean": float(u.mean()), "std": float(u.std())}
+    except ValueError:
+        outcome, extra = "ValueError", {}
+    return {"ok": outcome == ("ValueError" if invalid else "accept"), "outcome": outcome,
+            "expected": "ValueError" if invalid else "accept", **extra}
+
+
 def oracle(ctx, deep):
     fails = []
+    for gname in ("RandomTruncatedFourierSeries", "RandomSineWaves1d"):
+        for rng_ in ((0.0, 0.0), (-1.0, 1.0), (-0.5, 0.5), (0.0, 1.0), (0.5, 0.5)):
+            for sd in (False, True):
+                for m in (False, True):
+                    r = probe_ic_options(gname, rng_, sd, m)
+                    ctx.count(("oracle_ic", gname, rng_, sd, m))
+                    if not r["ok"]:
+                        fails.append({"key": f"C20:ic-options:{gname}", "what": f"ic.{gname}(offset_range={rng_}, std_one={sd}, max_one={m}): {r['outcome']}, documented: {r['expected']} ({r})"[:400],
+                                      "probe": "ic_options", "args": {"gname": gname, "offset_range": list(rng_), "std_one": sd, "max_one": m}, "observed": r})
     names = ["Burgers", "Diffusion", "KuramotoSivashinsky", "Wave", "GrayScott", "NavierStokesVorticity",
-             "RepeatedStepper:Advection:1", "RepeatedStepper:Burgers:3", "RepeatedStepper:GrayScott:2", "Poisson"]
+             "RepeatedStepper:Advection:1", "RepeatedStepper:Burgers:3", "RepeatedStepper:GrayScott:2", "Poisson",
+             "ForcedStepper:Diffusion", "ForcedStepper:Burgers", "ForcedStepper:GrayScott"]
     if deep:
         names = exported_stepper_names() + ["RepeatedStepper:Advection:1", "RepeatedStepper:Burgers:3", "RepeatedStepper:Wave:2",
-                                            "RepeatedStepper:GrayScott:2", "RepeatedStepper:NavierStokesVorticity:2", "Poisson"]
+                                            "RepeatedStepper:GrayScott:2", "RepeatedStepper:NavierStokesVorticity:2", "Poisson",
+                                            "ForcedStepper:Diffusion", "ForcedStepper:Burgers", "ForcedStepper:GrayScott",
+                                            "ForcedStepper:Wave", "ForcedStepper:NavierStokesVorticity"]
     for name in names:
         for D in (1, 2, 3):
             if name in DIM_ONLY and DIM_ONLY[name] != D:
                 continue
             ex = _ex()
             N = 6
-            inner = name.split(":")[1] if name.startswith("RepeatedStepper:") else name
+            inner = name.split(":")[1] if name.startswith(("RepeatedStepper:", "ForcedStepper:")) else name
             if inner in DIM_ONLY and DIM_ONLY[inner] != D:
                 continue
             try:
@@ -304,4 +379,4 @@ def oracle(ctx, deep):
 
 
 def replay(probe, args):
-    return probe_shape(**args)
+    return {"shape": probe_shape, "ic_options": probe_ic_options}.get(probe, probe_shape)(**args)
